@@ -355,8 +355,11 @@ EndsIdle    == Quiescent => /\ w.st = (IF w.conn THEN "Idle" ELSE "Inactive")   
                             /\ \A i \in Callers : w.pc[i] = "done" \/ w.pc[i] = "idle"
 NoTimerLeak == Cardinality({k \in 1..MaxT : w.tmr[k].ph \in {"new", "sleep", "woken"}}) <= 1
 NoOverflow  == ~w.overflow
-\* C08d as an action property: no write for a caller that has been answered
-NoWriteAfterAnswer == [][\A i \in Callers : w.pc[i] = "done" => w'.writes[i] = w.writes[i]]_vars
+\* C08d as an action property: once a caller has been answered no further transmission of its command
+\* is *scheduled* (a write task created before the answer may still run within the same instant: J3)
+NWriteHandles(W, i) == Cardinality({n \in 1..Len(W.ready) : W.ready[n].k = "write" /\ W.ready[n].i = i})
+                     + Cardinality({n \in 1..Len(W.nxt) : W.nxt[n].k = "write" /\ W.nxt[n].i = i})
+NoWriteAfterAnswer == [][\A i \in Callers : w.pc[i] = "done" => NWriteHandles(w', i) <= NWriteHandles(w, i)]_vars
 \* C08e: a write for c only while no other command is awaiting its echo/reply
 Live == <>[](\A i \in Callers : w.pc[i] # "wait")
 
